@@ -30,7 +30,10 @@
     short-circuit [&& ||], [!], len, a[i] (out of range = panic), a[i:] / a[i:j],
     integer conversions ([EWrap]), string <-> []byte conversions (identity),
     binary.BigEndian.Uint16/32/64, math/bits.Len64, append(a, x) on a local slice, make([]T, n),
-    fmt.Errorf / errors.New (an opaque non-nil error), a LOCAL map[K]struct{} with integer keys
+    fmt.Errorf / errors.New (an opaque non-nil error), a LOCAL map[string]T ([VMap]: literal,
+    m[k] with the zero value when absent, comma-ok, m[k] = v, m[k]++), calls of outside-world
+    functions through the program's oracle ([SOracle], e.g. objects.GetCommit; a returned struct
+    is the list of the fields the code reads), a LOCAL map[K]struct{} with integer keys
     as a set ([m[k] = struct{}{}] is [EAppend], [_, ok := m[k]] is [EHas]), and
     buf.Buffer(n) for a parameter of type encoding.Bufferer (the parameter IS the arbitrary
     byte string the buffer contains; the call is buf[:n]).
@@ -54,6 +57,7 @@ Inductive value :=
 | VBool (b : bool)
 | VStr (s : bytes)               (* string, []byte *)
 | VList (l : list value)         (* []T for other T; nil slice = VList [] *)
+| VMap (m : list (bytes * value)) (* map[string]T: association list, the first binding of a key counts *)
 | VNil                           (* nil error / nil in a return position *)
 | VErr                           (* some non-nil error *)
 | VUnset.                        (* a variable slot that has not been declared yet *)
@@ -94,17 +98,24 @@ Inductive expr :=
 | EAppend (a b : expr)                   (* append(a, b), one element *)
 | ELen64 (a : expr)                      (* math/bits.Len64 *)
 | EHas (m k : expr)                      (* _, ok := m[k] for a set m (map[K]struct{}, K integer) *)
+| EMapEmpty                              (* map[string]T{} *)
+| EMapGet (m k : expr) (zero : value)    (* m[k] for a map[string]T, [zero] when absent *)
+| EMapHas (m k : expr)                   (* _, ok := m[k] for a map[string]T *)
 | EMakeBytes (n : expr)                  (* make([]byte, n) *)
 | EMakeList (n : expr) (zero : value)    (* make([]T, n) *)
 | EUnsupported (why : string).
 
-Inductive lhs := LVar (x : nat) | LBlank | LIndex (x : nat) (i : expr).
+Inductive lhs :=
+| LVar (x : nat) | LBlank | LIndex (x : nat) (i : expr)
+| LMapSet (x : nat) (k : expr).          (* m[k] = v for a LOCAL map[string]T held in variable x *)
 
 Inductive stmt :=
 | SSkip
 | SSeq (a b : stmt)
 | SAssign (ls : list lhs) (es : list expr)              (* parallel assignment, also := and var *)
 | SCall (ls : list lhs) (f : string) (args : list expr) (* x, y := f(args) for a translated f *)
+| SOracle (ls : list lhs) (f : string) (args : list expr) (* x, y := f(args) for an outside-world function
+                                                           (a store lookup): the program's oracle *)
 | SIf (c : expr) (t e : stmt)
 | SFor (id : nat) (c : expr) (post body : stmt)         (* init is emitted before the loop *)
 | SRange (id : nat) (k v : option nat) (e : expr) (body : stmt)
@@ -121,7 +132,15 @@ Record func := {
   f_outs : list nat;        (* in/out parameters, reported after the results *)
   f_body : stmt
 }.
-Definition prog := list (string * func).
+(** a program: the translated functions and an oracle for the outside-world calls ([SOracle]);
+    theorems about code that uses the oracle quantify over it *)
+Record prog := {
+  p_funcs : list (string * func);
+  p_oracle : string -> list value -> option (list value)
+}.
+Definition no_oracle : string -> list value -> option (list value) := fun _ _ => None.
+Definition with_oracle (p : prog) (o : string -> list value -> option (list value)) : prog :=
+  {| p_funcs := p_funcs p; p_oracle := o |}.
 
 Definition env := list value.
 
@@ -267,6 +286,23 @@ Definition has_val (vm vk : value) : eres :=
   | _, _ => EStuck
   end.
 
+(** map[string]T *)
+Fixpoint map_find (k : bytes) (m : list (bytes * value)) : option value :=
+  match m with
+  | [] => None
+  | (k', v) :: m' => if beqb k' k then Some v else map_find k m'
+  end.
+Definition map_get_val (zero : value) (vm vk : value) : eres :=
+  match vm, vk with
+  | VMap m, VStr k => EV (match map_find k m with Some v => v | None => zero end)
+  | _, _ => EStuck
+  end.
+Definition map_has_val (vm vk : value) : eres :=
+  match vm, vk with
+  | VMap m, VStr k => EV (VBool (match map_find k m with Some _ => true | None => false end))
+  | _, _ => EStuck
+  end.
+
 Fixpoint eval (e : env) (x : expr) {struct x} : eres :=
   match x with
   | EVar n => match nth_error e n with
@@ -325,6 +361,9 @@ Fixpoint eval (e : env) (x : expr) {struct x} : eres :=
                   | VStr s, VInt z => EV (VStr (s ++ [Z.to_N z]))
                   | _, _ => EStuck
                   end))
+  | EMapEmpty => EV (VMap [])
+  | EMapGet m k zero => ebind (eval e m) (fun vm => ebind (eval e k) (fun vk => map_get_val zero vm vk))
+  | EMapHas m k => ebind (eval e m) (fun vm => ebind (eval e k) (fun vk => map_has_val vm vk))
   | EHas m k => ebind (eval e m) (fun vm => ebind (eval e k) (fun vk => has_val vm vk))
   | ELen64 a => ebind (eval e a) (fun va => match va with VInt z => EV (VInt (len64 z)) | _ => EStuck end)
   | EMakeBytes n => ebind (eval e n) (fun vn =>
@@ -369,6 +408,17 @@ Definition assign1 (l : lhs) (v : value) (e : env) : outcome :=
               then ONormal (upd x (VList (firstn (Z.to_nat z) s ++ v :: skipn (S (Z.to_nat z)) s)) e)
               else OPanic
           | _, _ => OStuck
+          end
+      | EV _ => OStuck
+      | EPanic => OPanic
+      | EStuck => OStuck
+      end
+  | LMapSet x k =>
+      match eval e k with
+      | EV (VStr kk) =>
+          match get x e with
+          | VMap m => ONormal (upd x (VMap ((kk, v) :: m)) e)
+          | _ => OStuck
           end
       | EV _ => OStuck
       | EPanic => OPanic
@@ -425,11 +475,12 @@ Fixpoint range_loop (run : env -> outcome) (id : nat) (k v : option nat)
   end.
 
 (** * functions *)
-Fixpoint lookup_func (p : prog) (name : string) : option func :=
-  match p with
+Fixpoint lookup_in (l : list (string * func)) (name : string) : option func :=
+  match l with
   | [] => None
-  | (n, f) :: p' => if String.eqb n name then Some f else lookup_func p' name
+  | (n, f) :: l' => if String.eqb n name then Some f else lookup_in l' name
   end.
+Definition lookup_func (p : prog) (name : string) : option func := lookup_in (p_funcs p) name.
 
 Definition init_env (fd : func) (args : list value) : env :=
   args ++ repeat VUnset (f_nvars fd - length args).
@@ -477,6 +528,16 @@ Definition exec_step (rec : stmt -> env -> outcome) (p : prog) (s : stmt) (e : e
           else OStuck
       | Some _, EsPanic => OPanic
       | _, _ => OStuck
+      end
+  | SOracle ls fn args =>
+      match evals e args with
+      | EVs vs =>
+          match p_oracle p fn vs with
+          | Some rets => assign_all ls rets e
+          | None => OStuck
+          end
+      | EsPanic => OPanic
+      | EsStuck => OStuck
       end
   | SIf c t el =>
       match eval e c with
